@@ -1,3 +1,4 @@
+import Shentu.Gen.Vesting
 import Shentu.Proofs.BankLemmas
 import Shentu.Model.Cvm
 import Shentu.Proofs.Tactics
@@ -11,6 +12,47 @@ open Shentu Shentu.Vesting
 /-- tie (regenerated on every run): the lock check of a VM call carrying value reads the spendable amount of the denomination the
     VM moves — the staking bond denomination, not a constant that happens to equal it under the default configuration -/
 theorem tie_spendable_denomination : Gen.Wiring.cvmSpendableDenom_found = true ∧ Gen.Wiring.cvmSpendableDenom = ["k.sk.BondDenom(ctx)"] := by decide
+
+/-! ## the lock's code, pinned (regenerated from x/auth and x/bank on every run)
+
+The guards and updates below are coins-valued, so they are extracted as the ordered skeleton of each function (every `if`
+condition, every field update, every value returned, every account or coin move) and pinned here, next to the model function
+that mirrors them (`Vesting.unlock`, `Vesting.lockedSend`, `Vesting.locked`). A change of a guard, of an updated field or of the
+order of the moves breaks the tie. -/
+
+/-- every function of the lock was found in the source -/
+theorem tie_vesting_sites : Gen.Vesting.allFound = true := by decide
+
+/-- `MsgUnlock`: the account must exist and be a manual vesting account, the signer must be its recorded unlocker, the unlocked
+    total may not exceed the locked total in any denomination; then the unlocked total grows by the amount (and delegated-vesting
+    moves to delegated-free by what became unlocked) and the account is saved -/
+theorem tie_unlock : Gen.Vesting.unlock =
+    ["call k.ak.GetAccount(ctx, accountAddr)", "if acc == nil", "if !ok", "if !issuerAddr.Equals(unlocker)",
+     "if mvacc.VestedCoins.Add(msg.UnlockAmount...).IsAnyGT(mvacc.OriginalVesting)",
+     "mvacc.VestedCoins = mvacc.VestedCoins.Add(msg.UnlockAmount...)",
+     "if mvacc.DelegatedVesting.IsAllGT(mvacc.OriginalVesting.Sub(mvacc.VestedCoins))",
+     "mvacc.DelegatedVesting = mvacc.DelegatedVesting.Sub(unlockedDelegated)",
+     "mvacc.DelegatedFree = mvacc.DelegatedFree.Add(unlockedDelegated...)",
+     "call k.ak.SetAccount(ctx, mvacc)"] := by decide
+
+/-- `MsgLockedSend`: the recipient may not be its own unlocker; a new recipient needs an unlocker and starts with nothing locked
+    and nothing unlocked; an existing one must already be a manual vesting account and its unlocker cannot be named again; the
+    coins are credited, the locked total grows by exactly the amount, the account is saved, and the sender is debited (through
+    `SubtractCoins`, which respects the sender's own lock) -/
+theorem tie_lockedSend : Gen.Vesting.lockedSend =
+    ["if msg.UnlockerAddress != \"\"", "call k.ak.GetAccount(ctx, fromAddr)", "if from == nil", "if toAddr.Equals(unlocker)",
+     "call k.ak.GetAccount(ctx, toAddr)", "if acc == nil", "call k.ak.NewAccountWithAddress(ctx, toAddr)", "if unlocker.Empty()",
+     "call vesting.NewManualVestingAccount(baseAcc, sdk.NewCoins(), sdk.NewCoins(), unlocker)", "if !ok", "if !unlocker.Empty()",
+     "call k.AddCoins(ctx, toAddr, msg.Amount)", "toAcc.OriginalVesting = toAcc.OriginalVesting.Add(msg.Amount...)",
+     "call k.ak.SetAccount(ctx, toAcc)", "call k.SubtractCoins(ctx, fromAddr, msg.Amount)"] := by decide
+
+/-- what the bank treats as locked: the original amount minus the unlocked total (minus what is delegated while locked: the SDK's
+    `LockedCoinsFromVesting`), whatever the block time -/
+theorem tie_locked_amount :
+    Gen.Vesting.lockedCoins = ["return mva.BaseVestingAccount.LockedCoinsFromVesting(mva.GetVestingCoins(blockTime))"] ∧
+    Gen.Vesting.vestingCoins = ["return mva.OriginalVesting.Sub(mva.GetVestedCoins(blockTime))"] ∧
+    Gen.Vesting.vestedCoins = ["if !mva.VestedCoins.IsZero()", "return mva.VestedCoins"] ∧
+    Gen.Vesting.trackDelegation = ["call mva.BaseVestingAccount.TrackDelegation(balance, mva.GetVestingCoins(blockTime), amount)"] := by decide
 
 theorem denoms_single (d : Denom) (x : Int) : d ∈ Coins.denoms [(d, x)] := by
   unfold Coins.denoms; rw [List.mem_eraseDups]; simp
